@@ -234,6 +234,24 @@ func c16Run(c *Ctx) {
 		}
 		vals = append(vals, val{"number", lit, c16NumberProducers(n)})
 	}
+	// whole numbers at and beyond 2^63, written out as literals and computed
+	for _, big := range [][]string{
+		{"9223372036854775808", "(2 ** 63)", BI("pow", "2", "63"), "(4294967296 * 2147483648)", "(9223372036854775807 + 1)", BI("abs", "-9223372036854775808"), "\u09ef\u09e8\u09e8\u09e9\u09e9\u09ed\u09e8\u09e6\u09e9\u09ec\u09ee\u09eb\u09ea\u09ed\u09ed\u09eb\u09ee\u09e6\u09ee"},
+		{"18446744073709551616", "(2 ** 64)", BI("pow", "2", "64"), "(4294967296 * 4294967296)", BI("round", "2 ** 64"), "(18446744073709551616.0)"},
+		{"100000000000000000000", "(10 ** 20)", "(10000000000 * 10000000000)", BI("max", "1", "10 ** 20"), "100000000000000000000.0"},
+	} {
+		ps := []c16Producer{{"literal", big[0], "", ""}}
+		for i, e := range big[1:] {
+			ps = append(ps, c16Producer{fmt.Sprintf("computed-%d", i), e, "", ""})
+		}
+		ps = append(ps, c16Producer{"variable", "held", Var("held", big[0]) + "\n", ""}, c16Producer{"function-return", "mkv()", Fun("mkv", "", " "+Ret(big[0])+" ") + "\n", ""})
+		vals = append(vals, val{"number", big[0], ps})
+	}
+	// a string longer than any line buffer (Latin and Bangla)
+	for _, s := range []string{strings.Repeat("x", 4100), strings.Repeat("\u0995\u09a5\u09be ", 500) + "end"} {
+		ps := []c16Producer{{"literal", `"` + s + `"`, "", ""}, {"input", BI("input"), "", s + "\n"}, {"concat", `("` + s[:len(s)/2-1] + `" + "` + s[len(s)/2-1:] + `")`, "", ""}, {"variable", "held", Var("held", `"`+s+`"`) + "\n", ""}}
+		vals = append(vals, val{"string", `"` + s + `"`, ps})
+	}
 	vals = append(vals, val{"number", "1.5", c16FractionProducers("1.5", "0.75")}, val{"number", "0.5", c16FractionProducers("0.5", "0.25")}, val{"number", "2.25", c16FractionProducers("2.25", "1.125")})
 	k := 0
 	for ci, ctx := range ctxs {
